@@ -1,6 +1,7 @@
 """C16 -- renormalisation restores the reference elemental abundances."""
 from __future__ import annotations
 
+import ast
 import re
 
 from .. import calg, jmodel as J
@@ -74,12 +75,31 @@ def _r5(ctx, pkg):
     for f in pkg.files:
         if not f.endswith(".py") or f.startswith("naunet/examples/"):
             continue
+        owner = {}
+        for fn_ in ast.walk(pkg.modules[f]):
+            if isinstance(fn_, (ast.FunctionDef, ast.AsyncFunctionDef)):
+                for x in ast.walk(fn_):
+                    if isinstance(x, ast.Call):
+                        owner[id(x)] = fn_          # the innermost function wins (walk visits outer functions first)
+
+        def through_local(e_, fn_):
+            """a local bound exactly once in the function stands for the expression it was bound to"""
+            for _ in range(3):
+                if isinstance(e_, ast.Name) and fn_ is not None:
+                    asg = [a for a in ast.walk(fn_) if isinstance(a, ast.Assign) and any(isinstance(t, ast.Name) and t.id == e_.id for t in a.targets)]
+                    stores = [x for x in ast.walk(fn_) if isinstance(x, ast.Name) and x.id == e_.id and isinstance(x.ctx, ast.Store)]
+                    if len(asg) == 1 and len(stores) == 1:
+                        e_ = asg[0].value
+                        continue
+                break
+            return e_
         for c in ast.walk(pkg.modules[f]):
             if isinstance(c, ast.Call) and ast.unparse(c.func).split(".")[-1] == "NetworkInfo":
                 n += 1
                 args = {k.arg: k.value for k in c.keywords}
                 e = c.args[0] if len(c.args) > 0 else args.get("elements")
                 sp = c.args[1] if len(c.args) > 1 else args.get("species")
+                e, sp = through_local(e, owner.get(id(c))), through_local(sp, owner.get(id(c)))
                 good = isinstance(e, ast.Attribute) and isinstance(sp, ast.Attribute) and e.attr == "elements" and sp.attr == "species" and ast.unparse(e.value) == ast.unparse(sp.value)
                 ctx.check(good, "R5", f"{f.rsplit('/', 1)[1]}:NetworkInfo(elements, species)", (f, c.lineno), "elements and species of the same network are handed to the generator",
                           expected="NetworkInfo(network.elements, network.species, ...)", found=f"{ast.unparse(e) if e else None}, {ast.unparse(sp) if sp else None}")
@@ -145,9 +165,14 @@ def check(ctx):
     # ------------------------------------------------------------ R1 matrix term
     ret = [f for f in fl.facts if f.kind == "return"]
     mat_name = fac_name = None
-    if len(ret) == 1 and ret[0].value[0] == "meth" and ret[0].value[2] == "RenormContent" and len(ret[0].value[3]) == 2:
-        a, b = ret[0].value[3]
-        if a[0] == "acc" and b[0] == "acc":
+    if len(ret) == 1 and ret[0].value[0] == "meth" and ret[0].value[2] == "RenormContent":
+        # bound to the dataclass fields, by position or by keyword
+        fields = [x.target.id for x in pkg.cls("TemplateLoader.RenormContent").node.body if isinstance(x, ast.AnnAssign) and isinstance(x.target, ast.Name)] \
+            if "TemplateLoader.RenormContent" in pkg.classes else ["factor", "matrix"]
+        given = dict(zip(fields, ret[0].value[3]))
+        given.update({k: v for k, v in ret[0].value[4] if k in fields})
+        a, b = given.get("factor"), given.get("matrix")
+        if len(ret[0].value[3]) + len(ret[0].value[4]) == 2 and a is not None and b is not None and a[0] == "acc" and b[0] == "acc":
             fac_name, mat_name = a[1], b[1]
     if mat_name is None:
         ctx.unrec("R1", "RenormContent(...)", W, "return RenormContent(factor, matrix) not recognised")
@@ -308,80 +333,183 @@ ELEMIDX = ("filter", "list", ("filter", "map", ("filter", "map", ("filter", "map
                                                               (("const", "first"),), ()), (("const", "prefix"), ("const", "IDX_ELEM_")), ()), (), ())
 
 
+def _arith(e):
+    """sums and products with their operands in one fixed order (a*n + b == b + n*a), `loop.index - 1` as `loop.index0`"""
+    if not isinstance(e, tuple) or not e:
+        return e
+    e = tuple(_arith(x) if isinstance(x, tuple) else x for x in e)
+    if e[0] == "bin" and e[1] == "-" and e[3] == ("const", 1) and e[2][0] == "attr" and e[2][2] == "index" and e[2][1][0] == "name" and e[2][1][1].startswith("loop"):
+        return ("attr", e[2][1], "index0")
+    # (S | batch(n))[r][c]  ->  S[r * n + c]   (rows of n consecutive items)
+    if e[0] == "item" and e[1][0] == "item" and e[1][1][0] == "filter" and e[1][1][1] == "batch" and len(e[1][1][3]) == 1 and not e[1][1][4]:
+        bt = e[1][1]
+        return _arith(("item", bt[2], ("bin", "+", ("bin", "*", e[1][2], bt[3][0]), e[2])))
+    if e[0] == "bin" and e[1] in ("+", "*"):
+        ops = []
+
+        def flat(x):
+            if isinstance(x, tuple) and x and x[0] == "bin" and x[1] == e[1]:
+                flat(x[2]), flat(x[3])
+            else:
+                ops.append(x)
+        flat(e)
+        ops.sort(key=repr)
+        out = ops[0]
+        for x in ops[1:]:
+            out = ("bin", e[1], out, x)
+        return out
+    return e
+
+
+def _norm(e):
+    return _arith(J.canon(e))
+
+
+def _statements(items, pat, split_concat=False, tree=None, rel=None):
+    """Every place inside `items` (descending into loops) where the text matches `pat` (holes are the pattern's groups), with the hole
+    expressions resolved to what they stand for: `{% set %}` bindings substituted, and -- so that a flat loop with index arithmetic
+    and a loop nest read alike -- the loop variable of the k-th enclosing loop over S replaced by `S[loop@k.index0]` (for a tuple
+    target over zip(A, B): `A[loop@k.index0]`, `B[loop@k.index0]`) and `loop` by `loop@k` of the loop it is evaluated in.
+    -> [(resolved group expressions, [(for item, resolved sequence), ...outermost first], line)]"""
+    found = []
+
+    def val(e, env):
+        # one-expression macros of the template used as values are what they print (jmodel.inline_macros)
+        if tree is not None:
+            e = J.inline_macros(tree, rel, e)
+        return J.subst(e, env)
+
+    def rec(its, env, stack):
+        env = dict(env)
+        flat = []
+        for it in its:
+            if it[0] == "set":
+                if it[1][0] == "name":
+                    env[it[1][1]] = val(it[2], env)
+                elif it[1][0] == "tuple" and it[2][0] == "tuple" and len(it[1][1]) == len(it[2][1]):
+                    vals = [val(v, env) for v in it[2][1]]
+                    for t, v in zip(it[1][1], vals):
+                        if t[0] == "name":
+                            env[t[1]] = v
+            elif it[0] == "for":
+                k = len(stack) + 1
+                lp = ("name", f"loop@{k}")
+                idx = ("attr", lp, "index0")
+                seq = val(it[2], env)
+                e2 = dict(env)
+                e2["loop"] = lp
+                tg = it[1]
+                if tg[0] == "name":
+                    e2[tg[1]] = ("item", seq, idx)
+                elif tg[0] == "tuple" and seq[0] == "call" and seq[1] == ("name", "zip") and len(seq[2]) == len(tg[1]) and not seq[3]:
+                    for t, a_ in zip(tg[1], seq[2]):
+                        if t[0] == "name":
+                            e2[t[1]] = ("item", a_, idx)
+                else:
+                    for t in (tg[1] if tg[0] == "tuple" else ()):
+                        if t[0] == "name":
+                            e2.pop(t[1], None)
+                rec(it[3], e2, stack + ((it, seq),))
+            elif it[0] == "if":
+                rec(it[2], env, stack)
+                rec(it[3], env, stack)
+            elif it[0] == "text":
+                flat.append(it)
+            elif it[0] == "out":
+                r = val(it[1], env)
+                # an output that is a concatenation `"ab[" ~ idx ~ "]"` prints its constant pieces as text around its other pieces
+                parts = r[1] if (split_concat and r[0] == "concat") else (r,)
+                for part in parts:
+                    flat.append(("text", part[1]) + it[2:] if split_concat and part[0] == "const" and isinstance(part[1], str) else ("out", part) + it[2:])
+        txt = "".join(x[1] if x[0] == "text" else f"\x00{i}\x00" for i, x in enumerate(flat))
+        for mm in re.finditer(pat, txt):
+            found.append((tuple(flat[int(g)][1] for g in mm.groups()), stack, flat[int(mm.group(1))][2]))
+    rec(items, {}, ())
+    return found
+
+
+def _top_items(sk, fname):
+    """the template items of one C function, outermost only (a loop carries its body), in source order"""
+    its = [it for it, off in sk.items_in(fname)]
+    nested = set()
+    for it in its:
+        if it[0] in ("for", "if", "setblock"):
+            for x, st in J.walk_items(it[3] if it[0] == "for" else it[2]):
+                nested.add(id(x))
+            if it[0] in ("for", "if"):
+                for x, st in J.walk_items(it[4] if it[0] == "for" else it[3]):
+                    nested.add(id(x))
+    return [it for it in its if id(it) not in nested]
+
+
+MATRIX = ("attr", ("name", "renorm"), "matrix")
+FACTOR = ("attr", ("name", "renorm"), "factor")
+SPECIES_T = ("attr", ("name", "network"), "species")
+
+
 def _r2_template(ctx, label, rel, pat):
     ctx.saw(rel)
     items = J.flatten(ctx.tree, rel, {})
     sk = Skel(items)
-    sets = {}
-    for it, off in sk.items_in("InitRenorm"):
-        if it[0] == "set" and it[1][0] == "name":
-            sets[it[1][1]] = _resolve(it[2], sets)
-    loops = [it for it, off in sk.items_in("InitRenorm") if it[0] == "for" and J.path(J.unfilter(it[2])[0]) == "renorm.matrix"]
     key = f"{label}:InitRenorm"
-    if len(loops) != 1 or loops[0][2][0] != "attr" or loops[0][7] is not None:
-        ctx.bad("R2", key, (rel, 0), f"InitRenorm must iterate renorm.matrix exactly once, unfiltered (found {len(loops)})")
-        return
-    it = loops[0]
-    sets2 = dict(sets)
-    for x, st in J.walk_items(it[3]):
-        if x[0] == "set":
-            if x[1][0] == "tuple" and x[2][0] == "tuple" and len(x[1][1]) == len(x[2][1]):
-                for t, v in zip(x[1][1], x[2][1]):
-                    sets2[t[1]] = _resolve(v, sets2)
-            elif x[1][0] == "name":
-                sets2[x[1][1]] = _resolve(x[2], sets2)
-    flat = [x for x, st in J.walk_items(it[3]) if x[0] in ("text", "out")]
-    txt = "".join(x[1] if x[0] == "text" else f"\x00{i}\x00" for i, x in enumerate(flat))
-    mm = re.search(pat, txt)
-    if not mm:
-        ctx.bad("R2", key, (rel, it[5]), "assignment A(row, col) = term not found in the loop", found=txt.replace("\x00", "#")[:100])
-        return
-    row, col, val = (_resolve(flat[int(g)][1], sets2) for g in mm.groups())
-    nelem = ("filter", "length", ELEMIDX, (), ())
-    idx0 = ("attr", ("name", "loop"), "index0")
-    want_row = ("item", ELEMIDX, ("filter", "int", ("bin", "/", idx0, nelem), (), ()))
-    want_col = ("item", ELEMIDX, ("bin", "%", idx0, nelem))
-    # compared in canonical form (jmodel.canon): `//` or `(/)|int`, the prefix mapped over the list or applied to the chosen name
-    row, col, want_row, want_col = J.canon(row), J.canon(col), J.canon(want_row), J.canon(want_col)
-    ctx.check(row == want_row, "R2", f"{key}:row", (rel, it[5]), "row macro = IDX_ELEM_ name number (loop.index0 / nelem)|int of network.elements",
-              expected=J.show(want_row)[:160], found=J.show(row)[:160])
-    ctx.check(col == want_col, "R2", f"{key}:col", (rel, it[5]), "column macro = IDX_ELEM_ name number loop.index0 % nelem of network.elements",
-              expected=J.show(want_col)[:160], found=J.show(col)[:160])
-    base, fs = J.unfilter(val)
-    ctx.check(base == it[1] and all(f[0] == "stmwrap" for f in fs), "R2", f"{key}:value", (rel, it[5]), "the assigned value is the loop's own matrix term", found=J.show(val))
+    sts = _statements(_top_items(sk, "InitRenorm"), pat, tree=ctx.tree, rel=rel)
+    if len(sts) != 1:
+        ctx.unrec("R2", key, (rel, 0), f"expected one assignment `A(row, col) = term` inside the loop(s) of InitRenorm, found {len(sts)}")
+    else:
+        (row, col, val), stack, line = sts[0]
+        n = _norm(("filter", "length", ELEMIDX, (), ()))
+        idx = [("attr", ("name", f"loop@{k + 1}"), "index0") for k in range(len(stack))]
+        seqs = [_norm(sq) for _, sq in stack]
+        filtered = [it for it, _ in stack if it[7] is not None]
+        base, fs = J.unfilter(val)
+        row, col, base = _norm(row), _norm(col), _norm(base)
+        if filtered:
+            ctx.bad("R2", key, (rel, line), "InitRenorm must visit every matrix entry: the loop is filtered", found=J.show(filtered[0][7]))
+        elif len(stack) == 1 and seqs[0] == MATRIX:
+            # one flat loop over the row-major list: entry k belongs to (k // nelem, k % nelem)
+            want_row = _norm(("item", ELEMIDX, ("bin", "//", idx[0], n)))
+            want_col = _norm(("item", ELEMIDX, ("bin", "%", idx[0], n)))
+            want_val = ("item", MATRIX, idx[0])
+        elif len(stack) == 2 and (all(_norm(("filter", "length", sq, (), ())) == n for sq in seqs) or
+                                  (seqs[0] == ("filter", "batch", MATRIX, (n,), ()) and seqs[1] == ("item", seqs[0], idx[0]))):
+            # (the row-major list of nelem * nelem entries -- R1 -- cut into rows of nelem is the same nest)
+            # a loop nest over the elements x the elements: (r, c) takes entry r * nelem + c
+            want_row = _norm(("item", ELEMIDX, idx[0]))
+            want_col = _norm(("item", ELEMIDX, idx[1]))
+            want_val = _norm(("item", MATRIX, ("bin", "+", ("bin", "*", idx[0], n), idx[1])))
+        else:
+            ctx.unrec("R2", key, (rel, line), "the loops around `A(row, col) = term` are neither one loop over renorm.matrix nor a nest over the elements x the elements: "
+                      + "; ".join(J.show(sq)[:80] for sq in seqs))
+            filtered = [None]
+        if not filtered:
+            ctx.check(row == want_row, "R2", f"{key}:row", (rel, line), "row macro = IDX_ELEM_ name of network.elements number (flat index / nelem)|int -- the row the entry was computed for",
+                      expected=J.show(want_row)[:160], found=J.show(row)[:160])
+            ctx.check(col == want_col, "R2", f"{key}:col", (rel, line), "column macro = IDX_ELEM_ name of network.elements number (flat index % nelem) -- the column the entry was computed for",
+                      expected=J.show(want_col)[:160], found=J.show(col)[:160])
+            ctx.check(base == want_val and all(f[0] == "stmwrap" for f in fs), "R2", f"{key}:value", (rel, line), "the assigned value is entry row*nelem + col of renorm.matrix (whitespace filters only)",
+                      expected=J.show(want_val)[:160], found=J.show(val)[:160])
     # RenormAbundance
-    loops = [x for x, off in sk.items_in("RenormAbundance") if x[0] == "for"]
     key = f"{label}:RenormAbundance"
-    want_it = ("call", ("name", "zip"), (("attr", ("name", "network"), "species"), ("attr", ("name", "renorm"), "factor")), ())
-    if len(loops) != 1 or loops[0][2] != want_it or loops[0][7] is not None:
-        ctx.bad("R2", key, (rel, loops[0][5] if loops else 0), "RenormAbundance must iterate zip(network.species, renorm.factor) once, unfiltered",
-                expected=J.show(want_it), found="; ".join(J.show(x[2]) for x in loops))
+    sts = _statements(_top_items(sk, "RenormAbundance"), r"ab\s*\[\s*\x00(\d+)\x00\s*\]\s*=\s*ab\s*\[\s*\x00(\d+)\x00\s*\]\s*\*\s*\(\s*\x00(\d+)\x00\s*\)\s*;", split_concat=True, tree=ctx.tree, rel=rel)
+    if len(sts) != 1 or len(sts[0][1]) != 1:
+        ctx.unrec("R2", key, (rel, 0), f"expected one statement `ab[IDX] = ab[IDX] * (factor);` inside one loop of RenormAbundance, found {len(sts)}")
         return
-    it = loops[0]
-    svar, fvar = it[1][1]
-    sets3 = {}
-    for x, st in J.walk_items(it[3]):
-        if x[0] == "set" and x[1][0] == "name":
-            sets3[x[1][1]] = _resolve(x[2], sets3)
-    flat = []
-    for x, st in J.walk_items(it[3]):
-        if x[0] == "text":
-            flat.append(x)
-        elif x[0] == "out":
-            # an output that is a concatenation `"ab[" ~ idx ~ "]"` prints its constant pieces as text around its other pieces
-            r = _resolve(x[1], sets3)
-            for part in (r[1] if r[0] == "concat" else (r,)):
-                flat.append(("text", part[1]) + x[2:] if part[0] == "const" and isinstance(part[1], str) else ("out", part) + x[2:])
-    txt = "".join(x[1] if x[0] == "text" else f"\x00{i}\x00" for i, x in enumerate(flat))
-    mm = re.search(r"ab\s*\[\s*\x00(\d+)\x00\s*\]\s*=\s*ab\s*\[\s*\x00(\d+)\x00\s*\]\s*\*\s*\(\s*\x00(\d+)\x00\s*\)\s*;", txt)
-    if not mm:
-        ctx.bad("R2", key, (rel, it[5]), "statement `ab[IDX] = ab[IDX] * (factor);` not found", found=txt.replace("\x00", "#")[:100])
+    (a, b, f), stack, line = sts[0]
+    it, seq = stack[0]
+    idx = ("attr", ("name", "loop@1"), "index0")
+    want_idx = _norm(("filter", "prefix", ("attr", ("item", SPECIES_T, idx), "alias"), (("const", "IDX_"),), ()))
+    want_f = ("item", FACTOR, idx)
+    a, b, f = _norm(a), _norm(b), _norm(f)
+    parts = seq[2] if seq[0] == "call" and seq[1] == ("name", "zip") and not seq[3] else (seq,)
+    bases = [J.unfilter(x)[0] for x in parts]
+    if not all(x in (SPECIES_T, FACTOR) for x in bases):
+        ctx.unrec("R2", key, (rel, line), f"RenormAbundance iterates {J.show(seq)[:100]}, not the species / the factors (or both zipped)")
         return
-    a, b, f = (_resolve(flat[int(g)][1], sets3) for g in mm.groups())
-    want_idx = ("filter", "prefix", ("attr", svar, "alias"), (("const", "IDX_"),), ())
-    ctx.check(a == want_idx and b == want_idx and f == fvar, "R2", key, (rel, it[5]),
-              "ab[IDX_<alias of species n>] is multiplied by factor n", expected=f"ab[{J.show(want_idx)}] *= ({J.show(fvar)})",
-              found=f"ab[{J.show(a)}] = ab[{J.show(b)}] * ({J.show(f)})")
+    plain = it[7] is None and all(x in (SPECIES_T, FACTOR) for x in parts)
+    ctx.check(plain and a == want_idx and b == want_idx and f == want_f, "R2", key, (rel, line),
+              "ab[IDX_<alias of species n>] is multiplied by factor n, for every species (one unfiltered pass over the species and their factors)",
+              expected=f"ab[{J.show(want_idx)}] *= ({J.show(want_f)}) over zip(network.species, renorm.factor)",
+              found=f"ab[{J.show(a)}] = ab[{J.show(b)}] * ({J.show(f)}) over {J.show(seq)[:100]}")
 
 
 def _order(body, pats):
@@ -498,6 +626,18 @@ MUTANTS = [
     {"name": "decode-floordiv-swapped", "file": OD_RENORM, "old": "{% set i, j = (loop.index0/nelem) | int, loop.index0%nelem -%}", "new": "{% set j, i = loop.index0 // nelem, loop.index0 % nelem -%}", "rules": ["R2"]},
     {"name": "abundance-concat-wrong-alias", "file": OD_RENORM, "old": "    {% set specidx = spec.alias | prefix(\"IDX_\") -%}\n    ab[{{ specidx }}] = ab[{{ specidx }}] * ({{ fac }});", "new": "    {% set slot = \"ab[\" ~ (spec.name | prefix(\"IDX_\")) ~ \"]\" -%}\n    {{ slot }} = {{ slot }} * ({{ fac }});", "rules": ["R2"]},
     {"name": "ref-not-normalised", "file": OD_MAIN, "old": "ab_ref_[i] = ref[i] / ref[IDX_ELEM_H];", "new": "ab_ref_[i] = ref[i];", "rules": ["R3"]},
+    # hardening round 5: loop nests / batch in the templates, product loops and records in the generator, carrying a defect
+    {"name": "nest-diagonal-entry", "file": OD_RENORM, "old": "    {% for term in renorm.matrix -%}\n    {% set i, j = (loop.index0/nelem) | int, loop.index0%nelem -%}\n    A({{ elemidxnames[i] }}, {{ elemidxnames[j] }}) = {{ term | stmwrap(80, 32) }};\n    {% endfor %}\n", "new": "    {% for rname in elemidxnames -%}\n    {% set off = loop.index0 * nelem -%}\n    {% for cname in elemidxnames -%}\n    A({{ rname }}, {{ cname }}) = {{ renorm.matrix[loop.index0 * nelem + loop.index0] | stmwrap(80, 32) }};\n    {% endfor %}\n    {%- endfor %}\n", "rules": ["R2"]},
+    {"name": "nest-transposed", "file": OD_RENORM, "old": "    {% for term in renorm.matrix -%}\n    {% set i, j = (loop.index0/nelem) | int, loop.index0%nelem -%}\n    A({{ elemidxnames[i] }}, {{ elemidxnames[j] }}) = {{ term | stmwrap(80, 32) }};\n    {% endfor %}\n", "new": "    {% for rname in elemidxnames -%}\n    {% set off = loop.index0 * nelem -%}\n    {% for cname in elemidxnames -%}\n    A({{ cname }}, {{ rname }}) = {{ renorm.matrix[off + loop.index0] | stmwrap(80, 32) }};\n    {% endfor %}\n    {%- endfor %}\n", "rules": ["R2"]},
+    {"name": "abundance-factor-off-by-one", "file": OD_RENORM, "old": "    {% for spec, fac in zip(network.species, renorm.factor) -%}\n    {% set specidx = spec.alias | prefix(\"IDX_\") -%}\n    ab[{{ specidx }}] = ab[{{ specidx }}] * ({{ fac }});", "new": "    {% for spec in network.species -%}\n    {% set specidx = spec.alias | prefix(\"IDX_\") -%}\n    ab[{{ specidx }}] = ab[{{ specidx }}] * ({{ renorm.factor[loop.index] }});", "rules": ["R2"]},
+    {"name": "product-loop-row-mass", "edits": [
+        {"file": FILE, "old": "from importlib.metadata import version\n", "new": "from importlib.metadata import version\nfrom itertools import product\nfrom collections import namedtuple\n"},
+        {"file": FILE, "old": "        matrix = []\n        for iele, einame in enumerate(elemnames):\n            for jele, ejname in enumerate(elemnames):\n                terms = [\"0.0\"]\n                for ispec, spec in enumerate(species):\n                    ci = spec.element_count.get(einame, 0)\n                    cj = spec.element_count.get(ejname, 0)\n                    if not spec.is_electron and ci and cj:\n                        terms.append(\n                            f\"{(ci * cj * elements[jele].A)} * ab[IDX_{spec.alias}] / {spec.A} / Hnuclei\"\n                        )\n                matrix.append(\" + \".join(terms))\n", "new": "        pairs = list(zip(elemnames, elements))\n        matrix = []\n        for (einame, eiatom), (ejname, ejatom) in product(pairs, pairs):\n            terms = [\"0.0\"]\n            for spec in species:\n                ci = spec.element_count.get(einame, 0)\n                cj = spec.element_count.get(ejname, 0)\n                if not spec.is_electron and ci and cj:\n                    terms.append(f\"{(ci * cj * eiatom.A)} * ab[IDX_{spec.alias}] / {spec.A} / Hnuclei\")\n            matrix.append(\" + \".join(terms))\n"}], "rules": ["R1"]},
+    {"name": "record-row-mass", "edits": [
+        {"file": FILE, "old": "from importlib.metadata import version\n", "new": "from importlib.metadata import version\nfrom itertools import product\nfrom collections import namedtuple\n"},
+        {"file": FILE, "old": "class TemplateLoader:\n", "new": "_Elem = namedtuple(\"_Elem\", \"label atom\")\n\n\nclass TemplateLoader:\n"},
+        {"file": FILE, "old": "        matrix = []\n        for iele, einame in enumerate(elemnames):\n            for jele, ejname in enumerate(elemnames):\n                terms = [\"0.0\"]\n                for ispec, spec in enumerate(species):\n                    ci = spec.element_count.get(einame, 0)\n                    cj = spec.element_count.get(ejname, 0)\n                    if not spec.is_electron and ci and cj:\n                        terms.append(\n                            f\"{(ci * cj * elements[jele].A)} * ab[IDX_{spec.alias}] / {spec.A} / Hnuclei\"\n                        )\n                matrix.append(\" + \".join(terms))\n", "new": "        refs = [_Elem(next(iter(e.element_count)), e) for e in elements]\n        matrix = []\n        for ri in refs:\n            for rj in refs:\n                terms = [\"0.0\"]\n                for spec in species:\n                    ci = spec.element_count.get(ri.label, 0)\n                    cj = spec.element_count.get(rj.label, 0)\n                    if not spec.is_electron and ci and cj:\n                        terms.append(f\"{(ci * cj * ri.atom.A)} * ab[IDX_{spec.alias}] / {spec.A} / Hnuclei\")\n                matrix.append(\" + \".join(terms))\n"}], "rules": ["R1"]},
+    {"name": "renorm-content-keywords-swapped", "file": FILE, "old": "        return self.RenormContent(renorm, matrix)", "new": "        return self.RenormContent(matrix=renorm, factor=matrix)", "rules": ["R1"]},
 ]
 BENIGN = [
     {"name": "coefficient-commuted", "file": FILE, "old": "{(ci * cj * elements[jele].A)}", "new": "{(elements[jele].A * cj * ci)}"},
@@ -510,4 +650,18 @@ BENIGN = [
       "new": "    {% set enames = network.elements | map(attribute=\"element_count\") | map(\"first\") | list %}\n    {% set nelem = enames | length %}\n\n    {% for term in renorm.matrix -%}\n    {% set i, j = loop.index0 // nelem, loop.index0 % nelem -%}\n    A({{ enames[i] | prefix(\"IDX_ELEM_\") }}, {{ enames[j] | prefix(\"IDX_ELEM_\") }})"},
     {"name": "abundance-concat", "file": OD_RENORM, "old": "    {% set specidx = spec.alias | prefix(\"IDX_\") -%}\n    ab[{{ specidx }}] = ab[{{ specidx }}] * ({{ fac }});", "new": "    {% set slot = \"ab[\" ~ (spec.alias | prefix(\"IDX_\")) ~ \"]\" -%}\n    {{ slot }} = {{ slot }} * ({{ fac }});"},
     {"name": "guard-commuted", "file": FILE, "old": "if not spec.is_electron and ci and cj:", "new": "if ci and cj and not spec.is_electron:"},
+    # hardening round 5
+    {"name": "matrix-loop-nest", "file": OD_RENORM, "old": "    {% for term in renorm.matrix -%}\n    {% set i, j = (loop.index0/nelem) | int, loop.index0%nelem -%}\n    A({{ elemidxnames[i] }}, {{ elemidxnames[j] }}) = {{ term | stmwrap(80, 32) }};\n    {% endfor %}\n", "new": "    {% for rname in elemidxnames -%}\n    {% set off = loop.index0 * nelem -%}\n    {% for cname in elemidxnames -%}\n    A({{ rname }}, {{ cname }}) = {{ renorm.matrix[off + loop.index0] | stmwrap(80, 32) }};\n    {% endfor %}\n    {%- endfor %}\n"},
+    {"name": "matrix-batch-rows", "file": OD_RENORM, "old": "    {% for term in renorm.matrix -%}\n    {% set i, j = (loop.index0/nelem) | int, loop.index0%nelem -%}\n    A({{ elemidxnames[i] }}, {{ elemidxnames[j] }}) = {{ term | stmwrap(80, 32) }};\n    {% endfor %}\n", "new": "    {% for mrow in renorm.matrix | batch(nelem) -%}\n    {% set rname = elemidxnames[loop.index - 1] -%}\n    {% for term in mrow -%}\n    A({{ rname }}, {{ elemidxnames[loop.index0] }}) = {{ term | stmwrap(80, 32) }};\n    {% endfor %}\n    {%- endfor %}\n"},
+    {"name": "abundance-factor-by-index", "file": OD_RENORM, "old": "    {% for spec, fac in zip(network.species, renorm.factor) -%}\n    {% set specidx = spec.alias | prefix(\"IDX_\") -%}\n    ab[{{ specidx }}] = ab[{{ specidx }}] * ({{ fac }});", "new": "    {% for spec in network.species -%}\n    {% set specidx = spec.alias | prefix(\"IDX_\") -%}\n    ab[{{ specidx }}] = ab[{{ specidx }}] * ({{ renorm.factor[loop.index0] }});"},
+    {"name": "matrix-product-loop", "edits": [
+        {"file": FILE, "old": "from importlib.metadata import version\n", "new": "from importlib.metadata import version\nfrom itertools import product\nfrom collections import namedtuple\n"},
+        {"file": FILE, "old": "        matrix = []\n        for iele, einame in enumerate(elemnames):\n            for jele, ejname in enumerate(elemnames):\n                terms = [\"0.0\"]\n                for ispec, spec in enumerate(species):\n                    ci = spec.element_count.get(einame, 0)\n                    cj = spec.element_count.get(ejname, 0)\n                    if not spec.is_electron and ci and cj:\n                        terms.append(\n                            f\"{(ci * cj * elements[jele].A)} * ab[IDX_{spec.alias}] / {spec.A} / Hnuclei\"\n                        )\n                matrix.append(\" + \".join(terms))\n", "new": "        pairs = list(zip(elemnames, elements))\n        matrix = []\n        for (einame, eiatom), (ejname, ejatom) in product(pairs, pairs):\n            terms = [\"0.0\"]\n            for spec in species:\n                ci = spec.element_count.get(einame, 0)\n                cj = spec.element_count.get(ejname, 0)\n                if not spec.is_electron and ci and cj:\n                    terms.append(f\"{(ci * cj * ejatom.A)} * ab[IDX_{spec.alias}] / {spec.A} / Hnuclei\")\n            matrix.append(\" + \".join(terms))\n"}]},
+    {"name": "matrix-element-records", "edits": [
+        {"file": FILE, "old": "from importlib.metadata import version\n", "new": "from importlib.metadata import version\nfrom itertools import product\nfrom collections import namedtuple\n"},
+        {"file": FILE, "old": "class TemplateLoader:\n", "new": "_Elem = namedtuple(\"_Elem\", \"label atom\")\n\n\nclass TemplateLoader:\n"},
+        {"file": FILE, "old": "        matrix = []\n        for iele, einame in enumerate(elemnames):\n            for jele, ejname in enumerate(elemnames):\n                terms = [\"0.0\"]\n                for ispec, spec in enumerate(species):\n                    ci = spec.element_count.get(einame, 0)\n                    cj = spec.element_count.get(ejname, 0)\n                    if not spec.is_electron and ci and cj:\n                        terms.append(\n                            f\"{(ci * cj * elements[jele].A)} * ab[IDX_{spec.alias}] / {spec.A} / Hnuclei\"\n                        )\n                matrix.append(\" + \".join(terms))\n", "new": "        refs = [_Elem(next(iter(e.element_count)), e) for e in elements]\n        matrix = []\n        for ri in refs:\n            for rj in refs:\n                terms = [\"0.0\"]\n                for spec in species:\n                    ci = spec.element_count.get(ri.label, 0)\n                    cj = spec.element_count.get(rj.label, 0)\n                    if not spec.is_electron and ci and cj:\n                        terms.append(f\"{(ci * cj * rj.atom.A)} * ab[IDX_{spec.alias}] / {spec.A} / Hnuclei\")\n                matrix.append(\" + \".join(terms))\n"}]},
+    {"name": "renorm-content-by-keyword", "file": FILE, "old": "        return self.RenormContent(renorm, matrix)", "new": "        return self.RenormContent(matrix=matrix, factor=renorm)"},
+    {"name": "networkinfo-through-locals", "file": FILE, "old": "        info = NetworkInfo(\n            network.elements,\n            network.species,\n", "new": "        atoms = network.elements\n        members = network.species\n        info = NetworkInfo(\n            atoms,\n            members,\n"},
+    {"name": "index-name-through-macro", "file": OD_RENORM, "old": "    A({{ elemidxnames[i] }}, {{ elemidxnames[j] }}) =", "new": "    {% macro ename(k) %}{{ elemidxnames[k] }}{% endmacro -%}\n    A({{ ename(i) }}, {{ ename(j) }}) ="},
 ]
